@@ -146,8 +146,11 @@ def finish(ctx: Ctx, level_note: str = "") -> int:
         "wall_s": round(time.time() - ctx.t0, 2),
         "violations": sum(1 for ln in lines if ln.startswith("VIOLATION")),
     }
-    EVID.mkdir(exist_ok=True)
-    (EVID / f"{ctx.prop}.json").write_text(json.dumps(core.canon(evidence), indent=1))
+    # evidence is only ever written for runs against /repo itself; runs against a scratch copy
+    # (VERIF_REPO=..., used when seeded changes are tried) leave the committed evidence alone
+    evdir = EVID if str(core.REPO) == "/repo" else OUT / "evidence-scratch"
+    evdir.mkdir(parents=True, exist_ok=True)
+    (evdir / f"{ctx.prop}.json").write_text(json.dumps(core.canon(evidence), indent=1))
     shutil.rmtree(core.TMP, ignore_errors=True)
     return rc
 
